@@ -64,12 +64,17 @@ def check_case(res, rng, metric, kind, force=None):
         gi, gd = t2.index_.neighbor_graph
         Tt = t.transform(Q)
         qi, qd = t.index_.query(Q, k=k, epsilon=params["search_epsilon"])
+        import pickle
+        Tp = pickle.loads(pickle.dumps(t)).transform(Q)          # a persisted transformer (pipelines are) reports the same matrix
     except Exception as e:  # noqa
         res.violation(key + ":exception", "%s: %s" % (type(e).__name__, str(e)[:200]), case)
         return
     res.case((metric, kind, n, k, tuple(sorted((a, str(b)) for a, b in params.items())), np.asarray(L).tobytes()), True,
              sample={**case, "transform_row0": csr_triples(Tt)[:k]})
     res.count("kind_" + kind); res.traces += 2
+    if csr_triples(Tp) != csr_triples(Tt):
+        res.violation(key + ":persisted", "transform of the unpickled transformer differs from transform of the original: %s vs %s"
+                      % (csr_triples(Tp)[:2], csr_triples(Tt)[:2]), case); return
     for name, M, inds, dists, rows, width in (("fit_transform", Ft, gi, gd, n, k + 1), ("transform", Tt, qi, qd, Q.shape[0], k)):
         if M.shape != (rows, n) or not sp.isspmatrix_csr(M):
             res.violation(key + ":shape", "%s returned %s of shape %s, expected CSR %s" % (name, type(M).__name__, M.shape, (rows, n)), case); return
